@@ -2,7 +2,7 @@
 # usage: ingest.sh Cxx   (round-2 seeds: out_Cxx/a -> seeded/Cxx-c, out_Cxx/b -> seeded/Cxx-d)
 p=$1; rd=${2:-/tmp/seed2}; la=${3:-c}; lb=${4:-d}; cd /verif
 pkgof() { case "$1" in
- mailbox_test|mailbox) echo internal/mailbox;; actor_test|actor) echo internal/actor;; bootstrap_test) echo pkg/bootstrap;;
+ mailbox_test|mailbox) echo internal/mailbox;; actor_test|actor) echo internal/actor;; bootstrap_test|bootstrap) echo pkg/bootstrap;;
  serialize_test|serialize) echo internal/remoting/serialize;; messages_test|messages) echo internal/messages;;
  cluster|cluster_test) echo internal/cluster;; queues|queues_test) echo internal/queues;; future|future_test) echo internal/future;;
  remoting|remoting_test) echo internal/remoting;; vivid|vivid_test) echo .;; utils|utils_test) echo internal/utils;; scheduler|scheduler_test) echo internal/scheduler;; esac; }
